@@ -84,9 +84,11 @@ Proof. reflexivity. Qed.
 Lemma Buffered_next_frames_eq (g : gb) :
   Buffered_next_frames gnext g = rmap (fun u' => (to_g u', rb u')) (next_frames EQ (of_g g)).
 Proof.
-  unfold Buffered_next_frames, next_frames, refill_now. ring_calls. destruct g as [s b].
+  unfold Buffered_next_frames, next_frames, refill_now. ring_calls. unfold is_empty, is_full. destruct g as [s b].
   cbn [bind of_g rb sig bg_signal bg_ring_buffer].
-  destruct (len b =? 0); [|reflexivity].
+  (* whichever way the emptiness test is written *)
+  destruct (len b) as [|k] eqn:E; cbn [Nat.eqb negb bind]; [|reflexivity].
+  ring_calls. cbn [bind].
   erewrite for_each_refill by refill_body.
   rewrite range_length, Nat.sub_0_r. cbn [bg_signal bg_ring_buffer with_bg_ring_buffer with_bg_signal].
   destruct (refill EQ (max_len b) s b) as [[s' b']| |]; reflexivity.
@@ -106,7 +108,12 @@ Proof.
 Qed.
 
 Lemma Buffered_is_exhausted_eq (g : gb) : Buffered_is_exhausted gexh g = Ok (is_exhausted (of_g g)).
-Proof. unfold Buffered_is_exhausted, is_exhausted. ring_calls. destruct g; reflexivity. Qed.
+Proof.
+  unfold Buffered_is_exhausted, is_exhausted. ring_calls. unfold is_empty. destruct g as [s b].
+  cbn [bind of_g rb sig bg_signal bg_ring_buffer].
+  (* whichever way the conjunction is written: both operands are total *)
+  destruct (src_exhausted s); cbn [bind andb]; ring_calls; cbn [bind]; destruct (len b); reflexivity.
+Qed.
 
 Lemma Buffered_into_parts_eq (g : gb) : Buffered_into_parts g = Ok (into_parts (of_g g)).
 Proof. destruct g; reflexivity. Qed.
